@@ -135,8 +135,17 @@ func numLit(t *rapid.T, label string) Tok {
 }
 
 // column draws a column reference: plain, keyword-bearing, back-quoted, nested, or alias-qualified.
-func column(t *rapid.T, label string, qualifier string) string {
-	switch k := rapid.IntRange(0, 19).Draw(t, label+"k"); {
+// gx is the generation context of expressions: the stream alias usable as qualifier, and whether the
+// statement will also be executed (then shapes the engine rejects at Execute - NOT LIKE, back-quoted
+// names with spaces - are left out so that the executed share stays high).
+type gx struct {
+	q  string
+	ex bool
+}
+
+func column(t *rapid.T, label string, x gx) string {
+	qualifier := x.q
+	switch k := rapid.IntRange(0, 20).Draw(t, label+"k"); {
 	case k < 8:
 		c := pick(t, label, plainCols)
 		if qualifier != "" && chance(t, label+"q", 40) {
@@ -152,12 +161,16 @@ func column(t *rapid.T, label string, qualifier string) string {
 	case k < 17:
 		return pick(t, label, btCols)
 	case k < 18:
-		if pbt.Open("C11", "backtick-space") {
+		if x.ex || pbt.Open("C11", "backtick-space") {
 			return pick(t, label, btCols)
 		}
 		return pick(t, label, btHostile)
-	default:
+	case k < 19:
 		return pick(t, label, nestedCols)
+	default:
+		// "timestamp" is a WITH-option keyword of the lexer and at the same time the usual name of a stream
+		// column (README, e2e tests); it is used in SELECT / WHERE only
+		return "timestamp"
 	}
 }
 
@@ -171,7 +184,7 @@ func simpleCol(t *rapid.T, label string) string {
 var cmpOps = []string{"=", "!=", ">", ">=", "<", "<=", "=="}
 
 // predicate draws one comparison (token list) over stream columns.
-func predicate(t *rapid.T, label string, qualifier string, depth int) []Tok {
+func predicate(t *rapid.T, label string, qualifier gx, depth int) []Tok {
 	switch k := rapid.IntRange(0, 13).Draw(t, label+"k"); {
 	case k < 4:
 		return []Tok{ident(column(t, label+"c", qualifier)), p(pick(t, label+"o", cmpOps)), numLit(t, label+"n")}
@@ -183,10 +196,15 @@ func predicate(t *rapid.T, label string, qualifier string, depth int) []Tok {
 		return []Tok{ident(column(t, label+"c", qualifier)), p(o), strLit(t, label+"s")}
 	case k == 7:
 		out := []Tok{ident(column(t, label+"c", qualifier))}
-		if chance(t, label+"not", 25) {
+		if !qualifier.ex && chance(t, label+"not", 25) {
 			out = append(out, kw("NOT"))
 		}
-		return append(out, kw("LIKE"), strLit(t, label+"s"))
+		pat := strLit(t, label+"s")
+		if qualifier.ex && strings.HasPrefix(pat.S, "\"") {
+			// Execute rejects a double-quoted LIKE pattern; executed statements use a single-quoted one
+			pat = lit("'" + strings.ReplaceAll(strings.Trim(pat.S, "\""), "'", "") + "'")
+		}
+		return append(out, kw("LIKE"), pat)
 	case k == 8:
 		out := []Tok{ident(column(t, label+"c", qualifier)), kw("IS")}
 		if chance(t, label+"not", 50) {
@@ -222,7 +240,7 @@ func valueFor(t *rapid.T, label string, f string) Tok {
 	return numLit(t, label)
 }
 
-func boolExpr(t *rapid.T, label string, qualifier string, depth int, max int) []Tok {
+func boolExpr(t *rapid.T, label string, qualifier gx, depth int, max int) []Tok {
 	n := rapid.IntRange(1, max).Draw(t, label+"n")
 	var out []Tok
 	for i := 0; i < n; i++ {
@@ -242,8 +260,34 @@ func boolExpr(t *rapid.T, label string, qualifier string, depth int, max int) []
 // SELECT items
 // ---------------------------------------------------------------------------------------------
 
-func directItem(t *rapid.T, label string, qualifier string) Item {
-	switch k := rapid.IntRange(0, 15).Draw(t, label+"k"); {
+func directItem(t *rapid.T, label string, qualifier gx) Item {
+	switch k := rapid.IntRange(0, 18).Draw(t, label+"k"); {
+	case k == 16:
+		// array element / nested path with index
+		e := []Tok{w(pick(t, label+"arr", []string{"tags", "meta.items", "orders", "limit_x"})), pq("["), w(strconv.Itoa(rapid.IntRange(0, 3).Draw(t, label+"ix"))), p("]")}
+		return Item{Kind: "index", Expr: e}
+	case k >= 17:
+		// analytic function, optionally with OVER (PARTITION BY .. WHEN ..)
+		f := pick(t, label+"af", []string{"lag", "acc_sum", "acc_count", "acc_max", "latest", "LAG", "acc_avg"})
+		it := Item{Kind: "analytic", Expr: []Tok{fn(f), p("("), ident(simpleCol(t, label+"c")), p(")")}}
+		if chance(t, label+"over", 60) {
+			ov := &Over{}
+			if chance(t, label+"part", 70) {
+				ov.Partition = distinct(t, label+"pc", []string{"deviceId", "a", "limit_x", "orders", "`group`", "tag"}, rapid.IntRange(1, 2).Draw(t, label+"np"))
+			}
+			if len(ov.Partition) == 0 || chance(t, label+"when", 40) {
+				// inside OVER (WHEN ..) only =, AND, OR are normalised by the parser; LIKE / IS / NOT / NULL stay
+				// expression text, so their letter case is not varied
+				ov.When = boolExpr(t, label+"w", gx{ex: true}, 2, 2)
+				for i, tk := range ov.When {
+					if tk.K == "kw" && tk.S != "AND" && tk.S != "OR" {
+						ov.When[i].K = ""
+					}
+				}
+			}
+			it.Over = ov
+		}
+		return it
 	case k < 7:
 		return Item{Kind: "col", Expr: []Tok{ident(column(t, label+"c", qualifier))}}
 	case k < 9:
@@ -303,13 +347,25 @@ func assignAliases(t *rapid.T, items []Item, aliasPct int) {
 		if it.Star {
 			continue
 		}
-		must := it.Kind == "lit" || it.Kind == "num" || it.Kind == "case" || (it.Kind == "fn" && pbt.Open("C11", "unaliased-scalar-fn"))
+		must := it.Kind == "lit" || it.Kind == "num" || it.Kind == "case" || it.Kind == "analytic" || (it.Kind == "fn" && pbt.Open("C11", "unaliased-scalar-fn"))
 		if must || chance(t, fmt.Sprintf("hasal%d", i), aliasPct) {
 			a := pool[i]
 			if pbt.Open("C11", "backtick-space") && strings.Contains(a, " ") {
 				a = "bt" + strconv.Itoa(i)
 			}
 			it.Alias = a
+		}
+	}
+	// an alias never repeats the name of another item's bare column
+	bare := map[string]bool{}
+	for _, it := range items {
+		if !it.Star && it.Alias == "" {
+			bare[plain(it.Expr)] = true
+		}
+	}
+	for i := range items {
+		if items[i].Alias != "" && bare[items[i].Alias] {
+			items[i].Alias = fmt.Sprintf("%s_%d", strings.Trim(items[i].Alias, "`"), i)
 		}
 	}
 }
@@ -378,13 +434,13 @@ func genLimit(t *rapid.T, s *Stmt) {
 	s.Limit = rapid.SampledFrom([]int{1, 2, 3, 5, 10, 100, 1000, 7, 42}).Draw(t, "limit")
 }
 
-func genDirect(t *rapid.T) *Stmt {
+func genDirect(t *rapid.T, exec bool) *Stmt {
 	s := &Stmt{Shape: "direct", Distinct: chance(t, "distinct", 15)}
 	genSource(t, s)
-	if chance(t, "join", 20) {
+	if !exec && chance(t, "join", 20) {
 		genJoins(t, s)
 	}
-	q := s.SourceAlias
+	q := gx{q: s.SourceAlias, ex: exec}
 	if chance(t, "star", 15) {
 		s.Items = []Item{{Star: true}}
 	} else {
@@ -393,6 +449,22 @@ func genDirect(t *rapid.T) *Stmt {
 			s.Items = append(s.Items, directItem(t, fmt.Sprintf("it%d", i), q))
 		}
 		assignAliases(t, s.Items, 45)
+		if exec {
+			// Execute rejects two items with the same output column; keep executed statements unambiguous
+			seen := map[string]bool{}
+			for i := range s.Items {
+				it := &s.Items[i]
+				n := outName(*it)
+				if it.Alias == "" && s.SourceAlias != "" {
+					n = strings.TrimPrefix(n, s.SourceAlias+".")
+				}
+				if seen[n] {
+					it.Alias = fmt.Sprintf("dup%d", i)
+					n = it.Alias
+				}
+				seen[n] = true
+			}
+		}
 	}
 	if chance(t, "where", 60) {
 		s.Where = boolExpr(t, "wh", q, 0, 4)
@@ -482,10 +554,21 @@ func genWindowStmt(t *rapid.T) *Stmt {
 		s.Window.Trigger = havingExpr(t, "trg", s, 2, true)
 	}
 	if chance(t, "where", 40) {
-		s.Where = boolExpr(t, "wh", s.SourceAlias, 0, 3)
+		s.Where = boolExpr(t, "wh", gx{q: s.SourceAlias}, 0, 3)
 	}
 	if chance(t, "having", 40) {
 		s.Having = havingExpr(t, "hv", s, 3, false)
+	}
+	if !explicit && chance(t, "withNoWin", 25) {
+		// aggregation with the default window and WITH options
+		all := []string{"TIMESTAMP", "TIMEUNIT", "MAXOUTOFORDERNESS", "ALLOWEDLATENESS", "IDLETIMEOUT"}
+		n := rapid.IntRange(1, 3).Draw(t, "nwo")
+		if pbt.Open("C11", "with-no-window") {
+			n = 1
+		}
+		for i, name := range distinct(t, "wo", all, n) {
+			s.With = append(s.With, withOpt(t, name, i))
+		}
 	}
 	if explicit && chance(t, "with", 55) {
 		var names []string
@@ -498,16 +581,7 @@ func genWindowStmt(t *rapid.T) *Stmt {
 			names = distinct(t, "wo", all, rapid.IntRange(1, len(all)).Draw(t, "nwo"))
 		}
 		for i, n := range names {
-			o := WOpt{Name: n}
-			switch n {
-			case "TIMESTAMP":
-				o.Val = pick(t, "tsprop", []string{"ts", "timestamp", "order", "event_time", "limit_x", "from_ts", "eventTime"})
-			case "TIMEUNIT":
-				o.Val = pick(t, "tu", []string{"ss", "ms", "mi", "hh", "dd"})
-			default:
-				o.Val = pick(t, fmt.Sprintf("wod%d", i), durs)
-			}
-			s.With = append(s.With, o)
+			s.With = append(s.With, withOpt(t, n, i))
 		}
 		if len(s.With) > 0 && len(s.Having) > 0 && chance(t, "withFirst", 12) && !pbt.Open("C11", "with-before-having") {
 			s.WithFirst = true
@@ -538,6 +612,19 @@ func genWindowStmt(t *rapid.T) *Stmt {
 		genLimit(t, s)
 	}
 	return s
+}
+
+func withOpt(t *rapid.T, n string, i int) WOpt {
+	o := WOpt{Name: n}
+	switch n {
+	case "TIMESTAMP":
+		o.Val = pick(t, "tsprop", []string{"ts", "timestamp", "order", "event_time", "limit_x", "from_ts", "eventTime"})
+	case "TIMEUNIT":
+		o.Val = pick(t, "tu", []string{"ss", "ms", "mi", "hh", "dd"})
+	default:
+		o.Val = pick(t, fmt.Sprintf("wod%d", i), durs)
+	}
+	return o
 }
 
 func hasHavingThenOrderBy(s *Stmt) bool {
@@ -882,21 +969,24 @@ type Case struct {
 }
 
 func genCase(t *rapid.T) Case {
-	if rapid.IntRange(0, 99).Draw(t, "kind") < 35 {
+	// (rapid's integer draws lean towards small values, so the statement kinds come first)
+	if rapid.IntRange(0, 99).Draw(t, "kind") >= 60 {
 		sp := genSoup(t)
 		return Case{Kind: "soup", Soup: sp}
 	}
 	var s *Stmt
+	exec := false
 	switch k := rapid.IntRange(0, 9).Draw(t, "shape"); {
-	case k < 5:
-		s = genDirect(t)
-	case k < 8:
+	case k < 3:
 		s = genWindowStmt(t)
+	case k < 7:
+		exec = chance(t, "exec", 30)
+		s = genDirect(t, exec)
 	default:
 		s = genMRStmt(t)
 	}
 	c := Case{Kind: "stmt", Stmt: s, Layout: genLayout(t)}
-	if s.Shape == "direct" && len(s.Joins) == 0 && chance(t, "exec", 30) {
+	if exec {
 		c.Exec = true
 		c.Rows = genRows(t, s)
 	}
